@@ -15,6 +15,7 @@ import Mathlib.Data.List.Perm.Basic
 import Mathlib.Data.String.Basic
 import Mathlib.Order.Basic
 import Mathlib.Data.List.Lex
+import Mathlib.Algebra.Order.Field.Power
 set_option linter.unusedSimpArgs false
 set_option linter.unusedSectionVars false
 set_option linter.unusedVariables false
@@ -42,6 +43,7 @@ theorem wire_eq_normIn (rnd : Rat → Rat) : ∀ v : Val, jsonify (minimize rnd 
   | .nan => by simp [minimize, normIn, jsonify]
   | .inf _ => by simp [minimize, normIn, jsonify]
   | .str _ => by simp [minimize, normIn, jsonify]
+  | .reward _ _ => by simp [minimize, normIn, jsonify]
 theorem wireL_eq_normInL (rnd : Rat → Rat) : ∀ xs : List Val, jsonifyL (minimizeL rnd xs) = normInL rnd xs
   | [] => by simp [minimizeL, normInL, jsonifyL]
   | x :: xs => by simp [minimizeL, normInL, jsonifyL, wire_eq_normIn rnd x, wireL_eq_normInL rnd xs]
@@ -97,6 +99,7 @@ theorem minimize_idem (rnd : Rat → Rat) : ∀ v : Val, (∀ q ∈ fltLeaves v,
   | .nan, _ => by simp [minimize]
   | .inf _, _ => by simp [minimize]
   | .str _, _ => by simp [minimize]
+  | .reward _ _, _ => by simp [minimize]
 theorem minimizeL_idem (rnd : Rat → Rat) : ∀ xs : List Val, (∀ q ∈ fltLeavesL xs, rnd (rnd q) = rnd q) →
     minimizeL rnd (minimizeL rnd xs) = minimizeL rnd xs
   | [], _ => by simp [minimizeL]
@@ -156,8 +159,8 @@ theorem normCell_eq (rnd : Rat → Rat) (s : String) (c : Val) :
   by_cases h : s = "rewards" <;> simp [h, wire_eq, tupTop_wire, ← wire_eq]
 
 /-- one transaction through the repaired encoder and reader -/
-theorem triRows_pack (rnd : Rat → Rat) (e l v : Int) (rows : List PyDict) (h : strKeys rows ≠ []) :
-    triRows true e l v (wireCols rnd (pack rows)) = .ok (specRows rnd e l v rows) := by
+theorem triRows_pack (rnd : Rat → Rat) (e l v : Int) (rows : List PyDict) (n : Nat) (h : strKeys rows ≠ []) :
+    triRows true e l v (wireCols rnd (pack rows)) n = .ok (specRows rnd e l v rows) := by
   have hne : (wireCols rnd (pack rows)).isEmpty = false := by
     cases hk : strKeys rows with
     | nil => exact absurd hk h
@@ -403,12 +406,12 @@ theorem compTable_encode (rnd : Rat → Rat) (f : Bool) (t : Tbl) (txs : List Tx
 
 /-! ### the interactions table of a log -/
 theorem intersOf_encode (rnd : Rat → Rat) (f : Bool) (txs : List Tx) :
-    intersOf (txs.map (encodeTx rnd f)) = (t4sOf txs).map (fun ir => (ir.1, wireCols rnd (if f then pack ir.2 else packAsIs ir.2))) := by
+    intersOf (txs.map (encodeTx rnd f)) = (t4sOf txs).map (fun ir => (ir.1, packedOf rnd f ir.2)) := by
   induction txs with
   | nil => simp [intersOf, t4sOf]
-  | cons tx txs ih => cases tx <;> simp [encodeTx, intersOf, t4sOf, ih]
+  | cons tx txs ih => cases tx <;> simp [encodeTx, intersOf, t4sOf, ih, packedOf]
 
-theorem foldl_mergeInter_nodup (l : List (List Int × Cols)) (acc : List (List Int × Cols))
+theorem foldl_mergeInter_nodup (l : List (List Int × Packed)) (acc : List (List Int × Packed))
     (h3 : ∀ ic ∈ l, ic.1.length = 3) (hnd : (l.map (·.1)).Nodup) (hdis : ∀ ic ∈ l, ic.1 ∉ acc.map (·.1)) :
     l.foldl mergeInter acc = acc ++ l := by
   induction l generalizing acc with
@@ -429,25 +432,42 @@ theorem foldl_mergeInter_nodup (l : List (List Int × Cols)) (acc : List (List I
       intro e
       exact hnd.1 (e ▸ List.mem_map_of_mem hj)
 
+/-- pre-`_n` logs (`n = 0`): right when some row has a field or there is no row -/
 theorem triRows_pack' (rnd : Rat → Rat) (e l v : Int) (rows : List PyDict) (h : strKeys rows ≠ [] ∨ rows = []) :
-    triRows true e l v (wireCols rnd (pack rows)) = .ok (specRows rnd e l v rows) := by
+    triRows true e l v (wireCols rnd (pack rows)) 0 = .ok (specRows rnd e l v rows) := by
   rcases h with h | h
-  · exact triRows_pack rnd e l v rows h
+  · exact triRows_pack rnd e l v rows 0 h
   · subst h
     simp [triRows, pack, packWith, strKeys, sortDedup, wireCols, specRows, number]
 
+theorem normRow_nil (rnd : Rat → Rat) (row : PyDict) : normRow rnd [] row = [] := by simp [normRow]
+
+/-- [phase 2] with `_n` recorded: every evaluation, rows without fields included -/
+theorem triRows_packedOf (rnd : Rat → Rat) (e l v : Int) (rows : List PyDict) :
+    triRows true e l v (packedOf rnd true rows).1 (packedOf rnd true rows).2 = .ok (specRows rnd e l v rows) := by
+  by_cases h : strKeys rows = []
+  · have hc : wireCols rnd (pack rows) = [] := by simp [pack, packWith, wireCols, h]
+    simp only [packedOf, if_true, hc, List.isEmpty_nil, triRows, specRows, h]
+    congr 2
+    have hrep : ∀ rs : List PyDict, List.replicate rs.length ([] : Row) = rs.map (normRow rnd []) := by
+      intro rs
+      induction rs with
+      | nil => simp
+      | cons r rs ih => simp [List.replicate_succ, normRow_nil, ih]
+    exact hrep rows
+  · simp only [packedOf, if_true]
+    exact triRows_pack rnd e l v rows _ h
+
 theorem interTable_spec (rnd : Rat → Rat) (l : List (List Int × List PyDict)) (h : ∀ ir ∈ l, WellFormed ir) :
-    interTable true (l.map (fun ir => (ir.1, wireCols rnd (pack ir.2)))) = .ok (l.flatMap (specRowsOf rnd)) := by
+    interTable true (l.map (fun ir => (ir.1, packedOf rnd true ir.2))) = .ok (l.flatMap (specRowsOf rnd)) := by
   induction l with
   | nil => simp [interTable]
   | cons ir l ih =>
     obtain ⟨ids, rows⟩ := ir
-    have hw := h (ids, rows) (by simp)
-    obtain ⟨h3, hne⟩ := hw
-    simp only at h3 hne
+    have h3 : ids.length = 3 := h (ids, rows) (by simp)
     match ids, h3 with
     | [e, l', v], _ =>
-      simp only [List.map_cons, interTable, triRows_pack' rnd e l' v rows hne, ih (fun x hx => h x (by simp [hx])),
+      simp only [List.map_cons, interTable, triRows_packedOf rnd e l' v rows, ih (fun x hx => h x (by simp [hx])),
         List.flatMap_cons, specRowsOf]
 
 theorem interactions_encode (rnd : Rat → Rat) (txs : List Tx)
@@ -455,10 +475,9 @@ theorem interactions_encode (rnd : Rat → Rat) (txs : List Tx)
     interTable true (interRecs (txs.map (encodeTx rnd true))) = .ok (specInteractions rnd txs) := by
   unfold interRecs specInteractions
   rw [intersOf_encode]
-  simp only [if_true]
-  rw [foldl_mergeInter_nodup _ [] (by intro ic hic; simp only [List.mem_map] at hic; obtain ⟨ir, hir, rfl⟩ := hic; exact (hw ir hir).1)
+  rw [foldl_mergeInter_nodup _ [] (by intro ic hic; simp only [List.mem_map] at hic; obtain ⟨ir, hir, rfl⟩ := hic; exact hw ir hir)
         (by simpa [List.map_map, Function.comp_def] using hnd) (by simp)]
-  rw [List.nil_append, sortBy_map (fun ir : List Int × List PyDict => (ir.1, wireCols rnd (pack ir.2))) ltTriP ltTri (by intro a b; rfl)]
+  rw [List.nil_append, sortBy_map (fun ir : List Int × List PyDict => (ir.1, packedOf rnd true ir.2)) ltTriP ltTri (by intro a b; rfl)]
   apply interTable_spec
   intro ir hir
   exact hw ir ((sortBy_perm ltTriP _).mem_iff.mp hir)
@@ -487,7 +506,7 @@ theorem encode_append (rnd : Rat → Rat) (f : Bool) (info : PyDict) (txs1 txs2 
 
 /-! ### counterexamples -/
 theorem empty_rows_dropped (rnd : Rat → Rat) :
-    triRows true 0 0 0 (wireCols rnd (pack [[]])) = .ok [] ∧ specRows rnd 0 0 0 [[]] = [idCells 0 0 0 1] := by
+    triRows true 0 0 0 (wireCols rnd (pack [[]])) 0 = .ok [] ∧ specRows rnd 0 0 0 [[]] = [idCells 0 0 0 1] := by
   constructor
   · rfl
   · simp [specRows, strKeys, sortDedup, rowStrs, normRow, number]
@@ -1014,6 +1033,379 @@ theorem cleanRun_perm (txs txs' : List Tx) (hp : txs.Perm txs') (hc : CleanRun t
   triNodup := (((t4sOf_perm _ _ hp).map (·.1)).nodup_iff).mp hc.triNodup
   idNodup := fun t => (((paramsOf_perm t _ _ hp).map (·.1)).nodup_iff).mp (hc.idNodup t)
   keysOk := fun t ip hip => hc.keysOk t ip ((paramsOf_perm t _ _ hp).mem_iff.mpr hip)
+
+
+
+/-! ### phase 2: `fl` is exact on 53-bit significands; `round5` is idempotent without a bound -/
+
+
+theorem pow2_eq_zpow (e : Int) : pow2 e = (2 : Rat) ^ e := by
+  unfold pow2
+  by_cases h : 0 ≤ e
+  · rw [if_pos h]
+    obtain ⟨n, rfl⟩ := Int.eq_ofNat_of_zero_le h
+    simp
+  · rw [if_neg h]
+    obtain ⟨n, hn⟩ : ∃ n : Nat, -e = (n : Int) := ⟨(-e).toNat, by omega⟩
+    have he : e = -(n : Int) := by omega
+    rw [hn, he, zpow_neg]
+    simp
+
+theorem pow2_pos (e : Int) : 0 < pow2 e := by rw [pow2_eq_zpow]; positivity
+
+theorem pow2_add (a b : Int) : pow2 (a + b) = pow2 a * pow2 b := by
+  simp only [pow2_eq_zpow]; exact zpow_add₀ (by norm_num) a b
+
+theorem pow2_lt_pow2 {a b : Int} (h : a < b) : pow2 a < pow2 b := by
+  simp only [pow2_eq_zpow]; exact zpow_lt_zpow_right₀ (by norm_num) h
+
+theorem pow2_le_pow2 {a b : Int} (h : a ≤ b) : pow2 a ≤ pow2 b := by
+  simp only [pow2_eq_zpow]; exact zpow_le_zpow_right₀ (by norm_num) h
+
+theorem absR_eq_abs (x : Rat) : absR x = |x| := by
+  unfold absR
+  by_cases h : x < 0
+  · rw [if_pos h, abs_of_neg h]
+  · rw [if_neg h, abs_of_nonneg (not_lt.mp h)]
+
+/-- `expo x` is the binary exponent of `x` -/
+theorem expo_spec (x : Rat) (hx : x ≠ 0) : pow2 (expo x) ≤ |x| ∧ |x| < pow2 (expo x + 1) := by
+  have hn : x.num.natAbs ≠ 0 := by simpa using Rat.num_ne_zero.mpr hx
+  have hd : x.den ≠ 0 := x.den_nz
+  have habs : |x| = (x.num.natAbs : Rat) / (x.den : Rat) := by
+    conv_lhs => rw [← Rat.num_div_den x]
+    rw [abs_div, Nat.abs_cast, ← Int.cast_abs, Int.abs_eq_natAbs]
+    simp
+  have hdpos : (0 : Rat) < x.den := by exact_mod_cast Nat.pos_of_ne_zero hd
+  -- 2^a ≤ num < 2^(a+1), 2^b ≤ den < 2^(b+1)
+  have ha1 : ((2 : Rat) ^ (Nat.log2 x.num.natAbs)) ≤ (x.num.natAbs : Rat) := by exact_mod_cast Nat.log2_self_le hn
+  have ha2 : (x.num.natAbs : Rat) < (2 : Rat) ^ (Nat.log2 x.num.natAbs + 1) := by exact_mod_cast Nat.lt_log2_self
+  have hb1 : ((2 : Rat) ^ (Nat.log2 x.den)) ≤ (x.den : Rat) := by exact_mod_cast Nat.log2_self_le hd
+  have hb2 : (x.den : Rat) < (2 : Rat) ^ (Nat.log2 x.den + 1) := by exact_mod_cast Nat.lt_log2_self
+  set a := Nat.log2 x.num.natAbs with ha
+  set b := Nat.log2 x.den with hb
+  have hpa : pow2 (a : Int) = (2 : Rat) ^ a := by rw [pow2_eq_zpow]; simp
+  have hpb : pow2 (b : Int) = (2 : Rat) ^ b := by rw [pow2_eq_zpow]; simp
+  have hpa1 : pow2 ((a : Int) + 1) = (2 : Rat) ^ (a + 1) := by rw [pow2_eq_zpow]; exact_mod_cast rfl
+  have hpb1 : pow2 ((b : Int) + 1) = (2 : Rat) ^ (b + 1) := by rw [pow2_eq_zpow]; exact_mod_cast rfl
+  -- lower: pow2 (a-b-1) < |x| ; upper: |x| < pow2 (a-b+1)
+  have hlow : pow2 ((a : Int) - b - 1) < |x| := by
+    rw [habs, lt_div_iff₀ hdpos]
+    have : pow2 ((a : Int) - b - 1) * pow2 ((b : Int) + 1) = pow2 a := by rw [← pow2_add]; congr 1; ring
+    calc pow2 ((a : Int) - b - 1) * (x.den : Rat) < pow2 ((a : Int) - b - 1) * pow2 ((b : Int) + 1) := by
+          apply mul_lt_mul_of_pos_left _ (pow2_pos _); rw [hpb1]; exact hb2
+      _ = pow2 a := this
+      _ ≤ _ := by rw [hpa]; exact ha1
+  have hup : |x| < pow2 ((a : Int) - b + 1) := by
+    rw [habs, div_lt_iff₀ hdpos]
+    have : pow2 ((a : Int) - b + 1) * pow2 (b : Int) = pow2 ((a : Int) + 1) := by rw [← pow2_add]; congr 1; ring
+    calc (x.num.natAbs : Rat) < pow2 ((a : Int) + 1) := by rw [hpa1]; exact ha2
+      _ = pow2 ((a : Int) - b + 1) * pow2 (b : Int) := this.symm
+      _ ≤ pow2 ((a : Int) - b + 1) * (x.den : Rat) := by
+          apply mul_le_mul_of_nonneg_left _ (le_of_lt (pow2_pos _)); rw [hpb]; exact hb1
+  unfold expo
+  simp only
+  rw [absR_eq_abs]
+  by_cases hc : pow2 ((a : Int) - (b : Int)) ≤ |x|
+  · rw [if_pos hc]; exact ⟨hc, hup⟩
+  · rw [if_neg hc]
+    refine ⟨le_of_lt hlow, ?_⟩
+    have : (a : Int) - b - 1 + 1 = (a : Int) - b := by ring
+    rw [this]; exact not_le.mp hc
+
+theorem expo_unique (x : Rat) (e : Int) (h1 : pow2 e ≤ |x|) (h2 : |x| < pow2 (e + 1)) : expo x = e := by
+  have hx : x ≠ 0 := by
+    rintro rfl; simp at h1; exact absurd h1 (not_le.mpr (pow2_pos e))
+  obtain ⟨s1, s2⟩ := expo_spec x hx
+  by_contra hne
+  rcases lt_or_gt_of_ne hne with h | h
+  · have : pow2 (expo x + 1) ≤ pow2 e := pow2_le_pow2 (by omega)
+    linarith
+  · have : pow2 (e + 1) ≤ pow2 (expo x) := pow2_le_pow2 (by omega)
+    linarith
+
+
+theorem pow2_zero : pow2 0 = 1 := by rw [pow2_eq_zpow]; simp
+
+theorem pow2_natCast (n : Nat) : pow2 (n : Int) = ((2 ^ n : Nat) : Rat) := by rw [pow2_eq_zpow]; simp
+
+theorem rhe_mem (x : Rat) : rhe x = x.floor ∨ (rhe x = x.floor + 1 ∧ (x.floor : Rat) < x) := by
+  unfold rhe
+  simp only
+  by_cases h1 : x - (x.floor : Rat) < 1 / 2
+  · left; rw [if_pos h1]
+  · rw [if_neg h1]
+    have hpos : (x.floor : Rat) < x := by
+      have : (1:Rat)/2 ≤ x - x.floor := not_lt.mp h1
+      linarith
+    by_cases h2 : 1 / 2 < x - (x.floor : Rat)
+    · right; rw [if_pos h2]; exact ⟨rfl, hpos⟩
+    · rw [if_neg h2]
+      by_cases h3 : x.floor % 2 = 0
+      · left; rw [if_pos h3]
+      · right; rw [if_neg h3]; exact ⟨rfl, hpos⟩
+
+theorem rhe_le_of_le (x : Rat) (n : Int) (h : x ≤ n) : rhe x ≤ n := by
+  have hf : x.floor ≤ n := by
+    have : (x.floor : Rat) ≤ n := le_trans (Rat.floor_le x) h
+    exact_mod_cast this
+  rcases rhe_mem x with h1 | ⟨h1, h2⟩
+  · rw [h1]; exact hf
+  · rw [h1]
+    have : (x.floor : Rat) < n := lt_of_lt_of_le h2 h
+    have : x.floor < n := by exact_mod_cast this
+    omega
+
+theorem le_rhe_of_le (x : Rat) (n : Int) (h : (n : Rat) ≤ x) : n ≤ rhe x := by
+  have hf : n ≤ x.floor := Rat.le_floor_iff.mpr h
+  rcases rhe_mem x with h1 | ⟨h1, _⟩ <;> rw [h1] <;> omega
+
+theorem natAbs_rhe_le (x : Rat) (n : Nat) (h : |x| ≤ n) : (rhe x).natAbs ≤ n := by
+  have h1 := rhe_le_of_le x n (by have := le_abs_self x; push_cast; linarith)
+  have h2 := le_rhe_of_le x (-(n : Int)) (by have := neg_abs_le x; push_cast; linarith)
+  omega
+
+/-- numbers with a significand below 2^53 are fixed by `fl` -/
+theorem fl_repr (n : Int) (t : Int) (hn : n ≠ 0) (hb : n.natAbs < 2 ^ 53) : fl ((n : Rat) * pow2 t) = (n : Rat) * pow2 t := by
+  have hpos : n.natAbs ≠ 0 := Int.natAbs_ne_zero.mpr hn
+  have hnq : (n : Rat) ≠ 0 := by exact_mod_cast hn
+  have hx : (n : Rat) * pow2 t ≠ 0 := mul_ne_zero hnq (ne_of_gt (pow2_pos t))
+  set L := Nat.log2 n.natAbs with hL
+  have habs : |(n : Rat) * pow2 t| = (n.natAbs : Rat) * pow2 t := by
+    rw [abs_mul, abs_of_pos (pow2_pos t), ← Int.cast_abs, Int.abs_eq_natAbs]; simp
+  have h1 : pow2 ((L : Int) + t) ≤ |(n : Rat) * pow2 t| := by
+    rw [habs, pow2_add, pow2_natCast]
+    apply mul_le_mul_of_nonneg_right _ (le_of_lt (pow2_pos t))
+    exact_mod_cast Nat.log2_self_le hpos
+  have h2 : |(n : Rat) * pow2 t| < pow2 ((L : Int) + t + 1) := by
+    have : (L : Int) + t + 1 = ((L + 1 : Nat) : Int) + t := by push_cast; ring
+    rw [habs, this, pow2_add, pow2_natCast]
+    apply mul_lt_mul_of_pos_right _ (pow2_pos t)
+    exact_mod_cast Nat.lt_log2_self
+  have he := expo_unique _ _ h1 h2
+  unfold fl
+  rw [if_neg hx, he]
+  unfold flCore
+  have hlog : L < 53 := (Nat.log2_lt hpos).mpr hb
+  obtain ⟨j, hj⟩ : ∃ j : Nat, (52 : Int) - L = (j : Int) := ⟨52 - L, by omega⟩
+  have hsc : pow2 (52 - ((L : Int) + t)) = pow2 (j : Int) * pow2 (-t) := by rw [← pow2_add]; congr 1; omega
+  have hinv : pow2 t * pow2 (-t) = 1 := by rw [← pow2_add]; simp [pow2_zero]
+  have hmul : (n : Rat) * pow2 t * pow2 (52 - ((L : Int) + t)) = ((n * 2 ^ j : Int) : Rat) := by
+    rw [hsc, pow2_natCast]; push_cast
+    calc (n : Rat) * pow2 t * (2 ^ j * pow2 (-t)) = (n : Rat) * 2 ^ j * (pow2 t * pow2 (-t)) := by ring
+      _ = _ := by rw [hinv]; ring
+  rw [hmul, rhe_intCast, hsc, pow2_natCast]
+  push_cast
+  have h2j : ((2 : Rat) ^ j) ≠ 0 := by positivity
+  have hpt : pow2 (-t) ≠ 0 := ne_of_gt (pow2_pos _)
+  rw [div_eq_iff (mul_ne_zero h2j hpt)]
+  calc (n : Rat) * 2 ^ j = (n : Rat) * 2 ^ j * (pow2 t * pow2 (-t)) := by rw [hinv, mul_one]
+    _ = _ := by ring
+
+/-- `fl x` has a significand of at most 53 bits -/
+theorem fl_is_repr (x : Rat) (hx : x ≠ 0) : ∃ n t : Int, n ≠ 0 ∧ n.natAbs < 2 ^ 53 ∧ fl x = (n : Rat) * pow2 t := by
+  obtain ⟨s1, s2⟩ := expo_spec x hx
+  set e := expo x with he
+  set m := rhe (x * pow2 (52 - e)) with hm
+  have hinv : pow2 (52 - e) * pow2 (e - 52) = 1 := by rw [← pow2_add]; simp [pow2_zero]
+  have hfl : fl x = (m : Rat) * pow2 (e - 52) := by
+    unfold fl; rw [if_neg hx]; unfold flCore
+    rw [← he, ← hm, div_eq_iff (ne_of_gt (pow2_pos _)), mul_assoc, mul_comm (pow2 (e - 52)), hinv, mul_one]
+  have hlo : (2 : Rat) ^ 52 ≤ |x * pow2 (52 - e)| := by
+    rw [abs_mul, abs_of_pos (pow2_pos _)]
+    have : pow2 e * pow2 (52 - e) = (2 : Rat) ^ 52 := by
+      rw [← pow2_add]; have : e + (52 - e) = ((52 : Nat) : Int) := by omega
+      rw [this, pow2_natCast]; norm_num
+    rw [← this]; exact mul_le_mul_of_nonneg_right s1 (le_of_lt (pow2_pos _))
+  have hhi : |x * pow2 (52 - e)| < (2 : Rat) ^ 53 := by
+    rw [abs_mul, abs_of_pos (pow2_pos _)]
+    have : pow2 (e + 1) * pow2 (52 - e) = (2 : Rat) ^ 53 := by
+      rw [← pow2_add]; have : e + 1 + (52 - e) = ((53 : Nat) : Int) := by omega
+      rw [this, pow2_natCast]; norm_num
+    rw [← this]; exact mul_lt_mul_of_pos_right s2 (pow2_pos _)
+  have hmle : m.natAbs ≤ 2 ^ 53 := natAbs_rhe_le _ (2 ^ 53) (by push_cast; exact le_of_lt hhi)
+  have hmne : m ≠ 0 := by
+    intro h0
+    -- |x·scale| ≥ 2^52 so the rounded value is at least 2^52 in magnitude
+    rcases le_or_gt 0 (x * pow2 (52 - e)) with hp | hp
+    · have := le_rhe_of_le (x * pow2 (52 - e)) (2 ^ 52) (by push_cast; rw [abs_of_nonneg hp] at hlo; exact hlo)
+      rw [← hm, h0] at this; norm_num at this
+    · have := rhe_le_of_le (x * pow2 (52 - e)) (-(2 ^ 52)) (by push_cast; rw [abs_of_neg hp] at hlo; linarith)
+      rw [← hm, h0] at this; norm_num at this
+  by_cases hlt : m.natAbs < 2 ^ 53
+  · exact ⟨m, e - 52, hmne, hlt, hfl⟩
+  · have heq : m.natAbs = 2 ^ 53 := by omega
+    refine ⟨m / 2, e - 51, ?_, ?_, ?_⟩
+    · omega
+    · omega
+    · rw [hfl]
+      have hm2 : m = (m / 2) * 2 := by omega
+      have : pow2 (e - 51) = 2 * pow2 (e - 52) := by
+        have : e - 51 = 1 + (e - 52) := by ring
+        rw [this, pow2_add]; congr 1
+      rw [this]
+      conv_lhs => rw [hm2]
+      push_cast; ring
+
+theorem round5_idem_all (q : Rat) : round5 (round5 q) = round5 q := by
+  unfold round5
+  have hcancel : ((rhe (fl (q * 100000)) : Int) : Rat) / 100000 * 100000 = ((rhe (fl (q * 100000)) : Int) : Rat) := by field_simp
+  rw [hcancel]
+  suffices h : fl ((rhe (fl (q * 100000)) : Int) : Rat) = ((rhe (fl (q * 100000)) : Int) : Rat) by rw [h, rhe_intCast]
+  by_cases hx : q * 100000 = 0
+  · have h0 : fl (0 : Rat) = 0 := by unfold fl; rw [if_pos rfl]
+    have hr : rhe (0 : Rat) = 0 := by simpa using rhe_intCast 0
+    rw [hx, h0, hr]; simpa using h0
+  · obtain ⟨n, t, hn, hb, hfl⟩ := fl_is_repr _ hx
+    rw [hfl]
+    by_cases ht : 0 ≤ t
+    · obtain ⟨j, rfl⟩ := Int.eq_ofNat_of_zero_le ht
+      have hint : (n : Rat) * pow2 (j : Int) = ((n * 2 ^ j : Int) : Rat) := by rw [pow2_natCast]; push_cast; ring
+      rw [hint, rhe_intCast, ← hint]
+      exact fl_repr n j hn hb
+    · apply fl_intCast
+      have hle : |(n : Rat) * pow2 t| ≤ ((2 ^ 52 : Nat) : Rat) := by
+        rw [abs_mul, abs_of_pos (pow2_pos t), ← Int.cast_abs, Int.abs_eq_natAbs]
+        have h1 : pow2 t ≤ pow2 (-1) := pow2_le_pow2 (by omega)
+        have h2 : pow2 (-1) = 1 / 2 := by rw [pow2_eq_zpow]; norm_num
+        have h3 : ((n.natAbs : Int) : Rat) ≤ 2 ^ 53 := by exact_mod_cast le_of_lt hb
+        have h4 : (0 : Rat) ≤ ((n.natAbs : Int) : Rat) := by positivity
+        calc ((n.natAbs : Int) : Rat) * pow2 t ≤ 2 ^ 53 * (1 / 2) := by
+              rw [← h2]; exact mul_le_mul h3 h1 (le_of_lt (pow2_pos _)) (by positivity)
+          _ = _ := by norm_num
+      have := natAbs_rhe_le _ _ hle
+      omega
+
+
+theorem run_order_invariant_aux (rnd : Rat → Rat) (info : PyDict) (txs txs' : List Tx) (hp : txs.Perm txs')
+    (hc : CleanRun txs) : runNoFile rnd true true info txs = runNoFile rnd true true info txs' := by
+  rw [run_spec' rnd info txs hc, run_spec' rnd info txs' (cleanRun_perm txs txs' hp hc), specResult_perm rnd info txs txs' hp hc]
+
+/-! ### phase 2: a punched log that is completed by the resumed run -/
+theorem punched_log_resume' (rnd : Rat → Rat) (info : PyDict) (txs keep txs₂ : List Tx) (hc : CleanRun txs)
+    (hk : keep.Sublist txs) (hp : (keep ++ txs₂).Perm txs) :
+    (fileAfter rnd true info none keep).Sublist (fileAfter rnd true info none txs)
+    ∧ fromFile true (fileAfter rnd true info none keep ++ encode rnd true true txs₂) = .ok (specResult rnd info txs)
+    ∧ fromFile true (fileAfter rnd true info none txs) = .ok (specResult rnd info txs) := by
+  refine ⟨?_, ?_, ?_⟩
+  · simp only [fileAfter, encode, Bool.false_eq_true, if_false, List.singleton_append, List.map_cons]
+    exact ((hk.map _).cons_cons _).cons_cons _
+  · have h : fromFile true (fileAfter rnd true info none keep ++ encode rnd true true txs₂)
+        = runNoFile rnd true true info (keep ++ txs₂) := by
+      simp only [fromFile, runNoFile, fileAfter, encode_append]
+    rw [h, ← run_spec' rnd info txs hc]
+    exact (run_order_invariant_aux rnd info txs (keep ++ txs₂) hp.symm hc).symm
+  · exact run_spec' rnd info txs hc
+
+
+/-! ### phase 2: `Table` column order and `Missing` padding -/
+
+
+theorem addCols_mem (cols : List String) (g : List Row) (c : String) :
+    c ∈ addCols cols g ↔ c ∈ cols ∨ ∃ r ∈ g, c ∈ rowKeys r := by
+  unfold addCols
+  simp only [List.mem_append, sortDedup_mem, List.mem_filter, List.mem_flatMap, Bool.not_eq_eq_eq_not, Bool.not_true,
+    List.contains_eq_mem, decide_eq_false_iff_not]
+  constructor
+  · rintro (h | ⟨h, _⟩)
+    · exact Or.inl h
+    · exact Or.inr h
+  · rintro (h | h)
+    · exact Or.inl h
+    · by_cases hc : c ∈ cols
+      · exact Or.inl hc
+      · exact Or.inr ⟨h, hc⟩
+
+theorem addCols_nodup (cols : List String) (g : List Row) (h : cols.Nodup) : (addCols cols g).Nodup := by
+  unfold addCols
+  rw [List.nodup_append]
+  refine ⟨h, (sortDedup_sorted _).imp (fun h => ne_of_lt h), ?_⟩
+  intro a ha b hb
+  rw [sortDedup_mem, List.mem_filter] at hb
+  rintro rfl
+  simp at hb
+  exact hb.2 ha
+
+theorem tableCols_prefix (init : List String) (groups : List (List Row)) : init <+: tableCols init groups := by
+  unfold tableCols
+  induction groups generalizing init with
+  | nil => simp
+  | cons g gs ih =>
+    simp only [List.foldl_cons]
+    exact (List.prefix_append init _).trans (ih (addCols init g))
+
+theorem tableCols_nodup (init : List String) (groups : List (List Row)) (h : init.Nodup) : (tableCols init groups).Nodup := by
+  unfold tableCols
+  induction groups generalizing init with
+  | nil => simpa
+  | cons g gs ih => simp only [List.foldl_cons]; exact ih _ (addCols_nodup init g h)
+
+theorem tableCols_mem (init : List String) (groups : List (List Row)) (c : String) :
+    c ∈ tableCols init groups ↔ c ∈ init ∨ ∃ g ∈ groups, ∃ r ∈ g, c ∈ rowKeys r := by
+  unfold tableCols
+  induction groups generalizing init with
+  | nil => simp
+  | cons g gs ih =>
+    simp only [List.foldl_cons, ih, addCols_mem, List.mem_cons]
+    constructor
+    · rintro ((h | h) | ⟨g', hg', h⟩)
+      · exact Or.inl h
+      · exact Or.inr ⟨g, Or.inl rfl, h⟩
+      · exact Or.inr ⟨g', Or.inr hg', h⟩
+    · rintro (h | ⟨g', (rfl | hg'), h⟩)
+      · exact Or.inl (Or.inl h)
+      · exact Or.inl (Or.inr h)
+      · exact Or.inr ⟨g', hg', h⟩
+
+theorem tables_observable_spec' (init : List String) (groups : List (List Row)) (hinit : init.Nodup) :
+    init <+: (padTable init groups).columns ∧ (padTable init groups).columns.Nodup
+    ∧ (∀ c, c ∈ (padTable init groups).columns ↔ c ∈ init ∨ ∃ g ∈ groups, ∃ r ∈ g, c ∈ rowKeys r)
+    ∧ (padTable init groups).rows = groups.flatten.map (fun r => (padTable init groups).columns.map (fun c => r.lookup c))
+    ∧ (∀ g ∈ groups, ∀ r ∈ g, ∀ k ∈ rowKeys r, k ∈ (padTable init groups).columns) := by
+  refine ⟨tableCols_prefix init groups, tableCols_nodup init groups hinit, tableCols_mem init groups, rfl, ?_⟩
+  intro g hg r hr k hk
+  exact (tableCols_mem init groups k).mpr (Or.inr ⟨g, hg, r, hr, hk⟩)
+
+theorem interGroups_flatten (fixed : Bool) (l : List (List Int × Packed)) :
+    interTable fixed l = (interGroups fixed l).map List.flatten := by
+  induction l with
+  | nil => simp [interTable, interGroups, Except.map]
+  | cons ic rest ih =>
+    obtain ⟨ids, cols, n⟩ := ic
+    match ids with
+    | [e, l', v] =>
+      simp only [interTable, interGroups, ih]
+      cases h1 : triRows fixed e l' v cols n <;> cases h2 : interGroups fixed rest <;> simp [Except.map]
+      rename_i rows more
+      by_cases hr : rows.isEmpty
+      · simp [List.isEmpty_iff.mp hr]
+      · have : rows ≠ [] := fun e => hr (by simp [e])
+        simp [this]
+    | [] => simp [interTable, interGroups, Except.map]
+    | [_] => simp [interTable, interGroups, Except.map]
+    | [_, _] => simp [interTable, interGroups, Except.map]
+    | _ :: _ :: _ :: _ :: _ => simp [interTable, interGroups, Except.map]
+
+/-- the padded interactions table of `tablesOf` holds exactly the rows of `readLog`'s interactions, in order -/
+theorem tablesOf_readLog (fixed : Bool) (file : List Rec) (res : Result) (h : readLog fixed file = .ok res) :
+    ∃ groups, tablesOf fixed file = .ok [padTable ["environment_id"] (if res.environments.isEmpty then [] else [res.environments]),
+        padTable ["learner_id"] (if res.learners.isEmpty then [] else [res.learners]),
+        padTable ["evaluator_id"] (if res.evaluators.isEmpty then [] else [res.evaluators]),
+        padTable idCols groups] ∧ groups.flatten = res.interactions := by
+  match file, h with
+  | .version n :: recs, h =>
+    simp only [readLog] at h
+    by_cases hn : n ≠ 4
+    · simp [hn] at h
+    · simp only [hn, if_false] at h
+      rw [interGroups_flatten] at h
+      cases hg : interGroups fixed (interRecs recs) with
+      | error e => simp [hg, Except.map] at h
+      | ok groups =>
+        simp only [hg, Except.map] at h
+        injection h with h
+        subst h
+        exact ⟨groups, by simp [tablesOf, hn, hg, idColName], rfl⟩
 
 
 end Coba.C07
